@@ -21,9 +21,9 @@ RULE = (
     "swallow, re-raise, raise new, raise new from None, raise same type, return, yield again, raise "
     "StopAsyncIteration / StopIteration, raise its own RuntimeError (plain, or 'from' the caught one), raise an "
     "equal copy} x afterwards {stop, yield again, raise, raise Stop(Async)Iteration, raise RuntimeError} with "
-    "0..2 suspensions per segment, and enumerates all 10 block outcomes {normal, Exception, BaseException, "
-    "StopIteration, StopAsyncIteration, RuntimeError, GeneratorExit, KeyboardInterrupt, an exception with value "
-    "equality, an exception object that tests false}; one pair of executions (asyncstdlib / contextlib) per "
+    "0..2 suspensions per segment, and enumerates all 11 block outcomes {normal, Exception, BaseException, "
+    "StopIteration, StopAsyncIteration, RuntimeError, GeneratorExit, KeyboardInterrupt, SystemExit, an exception with "
+    "value equality, an exception object that tests false}; the generator function may be a functools.partial; one pair of executions (asyncstdlib / contextlib) per "
     "outcome. Oracle: same bound value, same generator event log (resumed or thrown into exactly once), same "
     "outcome class (same object propagates / other exception type+marker / suppressed / RuntimeError); the "
     "documented GeneratorExit rule encoded. Non-trivial: the generator yielded; distinct = distinct "
@@ -45,7 +45,7 @@ HANDLERS = ("none", "finally", "swallow", "reraise", "raise_new", "raise_new_fro
             "raise_stopiter")
 POST = ("stop", "yield_again", "raise", "raise_stopasync", "raise_stopiter", "raise_runtime")
 OUTCOMES = ("normal", "Exception", "BaseException", "StopIteration", "StopAsyncIteration", "RuntimeError",
-            "GeneratorExit", "KeyboardInterrupt", "EqualException", "FalsyException")
+            "GeneratorExit", "KeyboardInterrupt", "EqualException", "FalsyException", "SystemExit")
 
 
 class GenError(Exception):
@@ -94,6 +94,8 @@ def prepare(ch):
     # the generator function is called with keyword arguments too, some with names the machinery uses itself
     names = ("func", "self", "args", "kwds", "gen", "label")
     prep.kwargs = {names[ch.draw(len(names))]: i for i in range(ch.draw(3))}
+    # the generator function itself may be a functools.partial of an async generator function (no __name__ ...)
+    prep.partial = ch.chance(1, 4)
     return prep
 
 
@@ -198,6 +200,8 @@ def make_exc(outcome):
         return EqualError("block")
     if outcome == "FalsyException":
         return FalsyError("block")
+    if outcome == "SystemExit":
+        return SystemExit(3)
     return KeyboardInterrupt("block")
 
 
@@ -223,8 +227,14 @@ def one_side(prep, outcome, st, decorator, interrupts):
     log, res = [], []
     injected = [make_exc(outcome)]
     genfunc = make_genfunc(prep, sim, log, injected)
-    factory = decorator(genfunc)
-    sim.spawn(use(factory, prep, sim, log, injected, res))
+    if prep.partial:
+        import functools
+
+        factory = functools.partial(decorator(functools.partial(genfunc, "arg")))
+        call = lambda _arg, **kw: factory(**kw)  # noqa: E731  (the positional argument is already bound)
+    else:
+        call = decorator(genfunc)
+    sim.spawn(use(call, prep, sim, log, injected, res))
     run_sim(sim)
     return sim, log, res
 
@@ -242,7 +252,7 @@ def run_prepared(prep, st, ctx):
 
     def describe():
         return {"program": {"pre": prep.pre, "handler": prep.handler, "post": prep.post, "suspensions": prep.susp,
-                            "kwargs": prep.kwargs},
+                            "kwargs": prep.kwargs, "generator_function_is_a_partial": prep.partial},
                 "block_outcome": outcome, "asyncstdlib": {"log": [repr(e) for e in alog], "result": repr(ares)},
                 "contextlib": {"log": [repr(e) for e in rlog], "result": repr(rres)}}
 
@@ -289,7 +299,7 @@ def run_prepared(prep, st, ctx):
     out.fault_free = outcome == "normal"
     if outcome != "normal":
         out.faults["block_raises_" + outcome] = 1
-    out.shape = (prep.pre, prep.handler, prep.post, outcome, tuple(prep.susp), tuple(sorted(prep.kwargs)))
+    out.shape = (prep.pre, prep.handler, prep.post, outcome, tuple(prep.susp), tuple(sorted(prep.kwargs)), prep.partial)
     if ctx.want_sample:
         out.sample = describe()
     if ctx.want_log:
